@@ -104,6 +104,54 @@ pub struct EngineResult {
 
 pub type Exec = dyn Fn(&Case) -> CaseReport + Sync;
 
+// ---- crash journal + watchdog -----------------------------------------------------------
+// Before a case is executed its replay-format JSON is written to a per-worker journal file,
+// so that a supervising parent can find the case that killed the process. A heartbeat per
+// worker lets a watchdog turn a hang into exit 2 (inconclusive), never into a violation.
+
+use std::sync::atomic::{AtomicBool, AtomicU64, Ordering};
+pub static JOURNAL: std::sync::Mutex<Option<(String, String)>> = std::sync::Mutex::new(None);
+pub static HEARTBEAT: [AtomicU64; 64] = [const { AtomicU64::new(0) }; 64];
+pub static ACTIVE: [AtomicBool; 64] = [const { AtomicBool::new(false) }; 64];
+
+/// enable journaling into `dir` for the engine named `engine` (None = off)
+pub fn set_journal(j: Option<(String, String)>) {
+    if let Some((d, _)) = &j {
+        let _ = std::fs::create_dir_all(d);
+    }
+    *JOURNAL.lock().unwrap_or_else(|e| e.into_inner()) = j;
+}
+
+pub fn journal_path(dir: &str, prop: &str, w: usize) -> String {
+    format!("{}/{}-w{}.json", dir, prop, w)
+}
+
+/// start the watchdog thread: if an active worker makes no progress for `limit_s` seconds the
+/// process reports an inconclusive run and exits with status 2
+pub fn start_watchdog(prop: String, limit_s: u64) {
+    std::thread::spawn(move || {
+        let mut last = [0u64; 64];
+        let mut since = [std::time::Instant::now(); 64];
+        loop {
+            std::thread::sleep(std::time::Duration::from_millis(1000));
+            for w in 0..64 {
+                if !ACTIVE[w].load(Ordering::Relaxed) {
+                    since[w] = std::time::Instant::now();
+                    continue;
+                }
+                let h = HEARTBEAT[w].load(Ordering::Relaxed);
+                if h != last[w] {
+                    last[w] = h;
+                    since[w] = std::time::Instant::now();
+                } else if since[w].elapsed().as_secs() >= limit_s {
+                    println!("INCONCLUSIVE property={} worker {} made no progress for {}s (hang; the case being executed is in the worker's journal file)", prop, w, limit_s);
+                    std::process::exit(2);
+                }
+            }
+        }
+    });
+}
+
 fn worker_seed(seed: u64, w: usize, salt: u64) -> [u8; 32] {
     // pure function of (VERIF_SEED, worker index, engine salt)
     let mut out = [0u8; 32];
@@ -139,7 +187,7 @@ pub fn run_engine<T, F>(
     known: &Known,
 ) -> (Acc, Option<(usize, T, Violation)>)
 where
-    T: std::fmt::Debug + Clone + Send + 'static,
+    T: std::fmt::Debug + Clone + Send + serde::Serialize + 'static,
     F: Fn(&T) -> CaseReport + Sync,
 {
     let results: Vec<(Acc, Option<(T, Violation)>)> = std::thread::scope(|sc| {
@@ -159,7 +207,23 @@ where
                         ..Config::default()
                     });
                     let strat = strategy_of();
+                    let journal = JOURNAL.lock().unwrap_or_else(|e| e.into_inner()).clone();
+                    let mut jfile = journal.as_ref().and_then(|(d, _)| std::fs::OpenOptions::new().create(true).write(true).truncate(true).open(journal_path(d, prop_id, w)).ok());
+                    let jfile = RefCell::new(jfile.take());
+                    if w < 64 {
+                        ACTIVE[w].store(true, Ordering::Relaxed);
+                    }
                     let res = runner.run(&strat, |t| {
+                        if w < 64 {
+                            HEARTBEAT[w].fetch_add(1, Ordering::Relaxed);
+                        }
+                        if let (Some(f), Some((_, engine))) = (jfile.borrow_mut().as_mut(), journal.as_ref()) {
+                            use std::io::{Seek, Write};
+                            let body = serde_json::to_vec(&json!({"property": prop_id, "engine": engine, "case": &t, "observed": "journal entry: the process died while executing this case"})).unwrap_or_default();
+                            let _ = f.seek(std::io::SeekFrom::Start(0));
+                            let _ = f.write_all(&body);
+                            let _ = f.set_len(body.len() as u64);
+                        }
                         let rep = exec(&t);
                         let searching = !failed.get();
                         if searching {
@@ -176,6 +240,9 @@ where
                                 a.unbuildable += 1;
                             }
                             let case = to_case(&t);
+                            if w == 0 && n.get() == 1 {
+                                a.samples.push(serde_json::to_value(&t).unwrap_or(Value::Null));
+                            }
                             let e = a.per_kind.entry(case.kind.short()).or_default();
                             e.0 += 1;
                             if rep.nontrivial && rep.violation.is_none() {
@@ -183,8 +250,8 @@ where
                                 let h = case.hash64();
                                 let first = a.nontrivial.is_empty();
                                 a.nontrivial.insert(h);
-                                if w == 0 && (first || (a.samples.len() < 3 && n.get() % 97 == 0)) {
-                                    a.samples.push(serde_json::to_value(&case).unwrap_or(Value::Null));
+                                if first || (a.samples.len() < 3 && n.get() % 97 == 0) {
+                                    a.samples.push(serde_json::to_value(&t).unwrap_or(Value::Null));
                                 }
                             }
                         }
@@ -223,6 +290,13 @@ where
                             None
                         }
                     };
+                    if w < 64 {
+                        ACTIVE[w].store(false, Ordering::Relaxed);
+                    }
+                    if let Some((d, _)) = journal.as_ref() {
+                        drop(jfile);
+                        let _ = std::fs::remove_file(journal_path(d, prop_id, w));
+                    }
                     (acc.into_inner(), found)
                 })
             })
